@@ -178,6 +178,49 @@ fn judge(rec: &mut Recorder, line: &str) -> bool {
             rec.nontrivial();
             true
         }
+        ["sl", _script, tl] => {
+            // last-writer-wins register: R<i>=<v> or R<i>=- (empty register)
+            let mut writes: Vec<i32> = vec![];
+            let mut acks: Vec<i32> = vec![];
+            let mut acks_before_read: BTreeMap<i32, usize> = BTreeMap::new();
+            let mut ok_shape = true;
+            for t in tl.split(',') {
+                if t == "end" {
+                } else if let Some(v) = t.strip_prefix('w') {
+                    let Ok(v) = v.parse() else { return false };
+                    writes.push(v);
+                } else if let Some(i) = t.strip_prefix('r') {
+                    let Ok(i) = i.parse() else { return false };
+                    acks_before_read.insert(i, acks.len());
+                } else if let Some(v) = t.strip_prefix('A') {
+                    let Ok(v) = v.parse() else { return false };
+                    acks.push(v);
+                } else if let Some(r) = t.strip_prefix('R') {
+                    let Some((i, s)) = r.split_once('=') else { return false };
+                    let Ok(i) = i.parse::<i32>() else { return false };
+                    let s: Option<i32> = if s == "-" { None } else { let Ok(x) = s.parse() else { return false }; Some(x) };
+                    let Some(k) = acks_before_read.get(&i).copied() else { ok_shape = false; continue };
+                    match s {
+                        // an empty register only if no acknowledgement had been observed when the read was issued
+                        None => rec.check(k == 0, "c34-ack-not-visible@sim:atomic_lww", &format!("{line}: read {i} issued after {k} acks sees an EMPTY register")),
+                        Some(v) => {
+                            // the value of the last acknowledged write or of a later one (acks come in write order)
+                            rec.check(writes.contains(&v), "c34-read-not-a-write@sim:atomic_lww", line);
+                            let lo = k.min(writes.len()).saturating_sub(1);
+                            rec.check(!writes.contains(&v) || writes[lo..].contains(&v), "c34-ack-not-visible@sim:atomic_lww",
+                                &format!("{line}: read {i} issued after {k} acks sees {v}, an older write"));
+                            rec.count(if k > 0 { "sim-lww-read-after-ack" } else { "sim-lww-read-before-ack" });
+                        }
+                    }
+                } else {
+                    return false;
+                }
+            }
+            rec.check(ok_shape, "c34-response-without-request@sim:atomic_lww", line);
+            rec.check(acks == writes, "c34-acks-are-not-the-writes@sim:atomic_lww", line);
+            rec.nontrivial();
+            true
+        }
         _ => false,
     }
 }
@@ -297,7 +340,7 @@ fn main() {
         let rounds = if a.tier == "thorough" { 12 } else { 4 };
         match a.mode.as_str() {
             "c31sim" => parent(&mut rec, &a, "c31sim-child", rounds, 5),
-            "c34sim" => parent(&mut rec, &a, "c34sim-child", if a.tier == "thorough" { 40 } else { 12 }, 1),
+            "c34sim" => parent(&mut rec, &a, "c34sim-child", if a.tier == "thorough" { 40 } else { 12 }, 2),
             m => {
                 eprintln!("unknown mode {m}");
                 std::process::exit(2)
